@@ -1,4 +1,5 @@
-// Package c01: harness for property C01 (stub until built).
+// Package c01: block processing never halts (full-application histories through the real
+// FinalizeBlock, watchdog children for transactions that may not return).
 package c01
 
 import "fmt"
